@@ -275,7 +275,20 @@ class Gen:
             kinds += ["def-assign"]
         if self.has_hdef:
             kinds += ["hdef", "hdef"]
+        kinds += ["block-decl"]
         k = rng.choice(kinds)
+        if k == "block-decl":
+            # 令： with several pairs: each pair is a constant or a variable on its own account, whatever stands before it
+            c1, v1, v2 = self.fresh(), self.fresh(), self.fresh()
+            order = rng.choice([[(True, c1), (False, v1), (False, v2)], [(False, v1), (True, c1), (False, v2)], [(False, v1), (False, v2), (True, c1)]])
+            out = [Decl([(c, [n], self.num_lit()) for c, n in order])]
+            self.declare(c1, "const:num")
+            self.declare(v1, "num")
+            self.declare(v2, "num")
+            out += [ExprS(AssignVar(v2, self.num_lit())), ExprS(AssignVar(v1, self.num_lit())), Display(Var(v1), Var(v2), Var(c1))]
+            if rng.random() < 0.3:
+                out.append(ExprS(AssignVar(c1, self.num_lit())))
+            return out
         if k == "hdef":
             return [Display(Call("Fh", []))] if rng.random() < 0.75 else [Display(Call("Fi", []))]
         if k == "dead-read":
